@@ -121,6 +121,51 @@ def run(ctx):
                 if pl != len(msg):
                     ctx.violation('decode_length(msg + tail) != len(msg)', {'codec': codec, 'module': text, 'msg': msg.hex(), 'got': pl})
 
+    # (c) messages of a NEWER version (unknown extension additions / alternatives after known ones): "any valid definite-length
+    # encoding" includes those — the receiver's decode_with_length must still report the whole message, whatever it skips inside
+    from ..extend import extend, project
+    done = 0
+    tries = 0
+    while done < ctx.n(80, 1500) and tries < 50000:
+        tries += 1
+        g = Gen(rng, Opts(max_depth=3, allow_exotic=0.0, big_lengths=0.0))
+        t1 = g.type()
+        t2, nsteps = extend(g, t1, rng.randint(1, 3))
+        if nsteps == 0:
+            continue
+        t3, n2 = extend(g, t2, rng.randint(1, 2))        # V1 knows nothing / V2 knows some / V3 adds more after them
+        done += 1
+        for rcv_t, snd_t in ((t1, t2), (t2, t3), (t1, t3)):
+            rtext, stext = module_text([('A', rcv_t)]), module_text([('A', snd_t)])
+            for codec in ('ber', 'der'):
+                st1, rcv = impl.compile_text(rtext, codec)
+                st2, snd = impl.compile_text(stext, codec)
+                if st1 != 'ok' or st2 != 'ok':
+                    continue
+                for _ in range(2):
+                    v = g.value(snd_t)
+                    r = impl.encode(snd, 'A', v)
+                    if r[0] != 'ok':
+                        continue
+                    msg = r[1]
+                    tail = bytes(rng.getrandbits(8) for _ in range(rng.choice([0, 1, 3, 17])))
+                    ctx.case(('dwl-newer', msg, tail, rtext))
+                    try:
+                        with core.time_limit(10):
+                            d1 = rcv.decode('A', msg)
+                            d2, n = rcv.decode_with_length('A', msg + tail)
+                    except Exception as e:
+                        ctx.count('dwl-newer.err.' + type(e).__name__)
+                        continue   # C07's business
+                    ctx.count('dwl-newer.ok')
+                    if n != len(msg) or repr(d1) != repr(d2):
+                        ctx.violation('decode_with_length(msg + tail) of a newer version\'s message differs from (decode(msg), len(msg))',
+                                      {'codec': codec, 'receiver': rtext, 'sender': stext, 'msg': msg.hex(), 'tail': tail.hex(), 'length': n, 'expected': len(msg),
+                                       'decode': repr(d1)[:300], 'decode_with_length': repr(d2)[:300]})
+                    pl = rcv.decode_length(msg + tail)
+                    if pl != len(msg):
+                        ctx.violation('decode_length(msg + tail) != len(msg)', {'codec': codec, 'module': rtext, 'msg': msg.hex(), 'got': pl})
+
 
 def replay(ctx, path):
     import json
